@@ -15,7 +15,7 @@ if os.path.exists(f'{src}/verify.log'):
     lines = open(f'{src}/verify.log', errors='replace').read().splitlines()
     open(f'{dst}/verify.log','w').write('\n'.join(lines[:400]))
 meta = {
-  "property": ID.replace("r2-",""), "change": f"{ID}-{X}",
+  "property": __import__("re").sub(r"^r\d-", "", ID), "change": f"{ID}-{X}",
   "needs_to_manifest": needs,
   "confirmed": {
      "patch_applies_and_compiles": ver.get("applies"),
